@@ -424,7 +424,10 @@ func init() {
 			f.ToUnicodeCMap = cm
 			want := norm.NFC.String(cm.LookupString(data))
 			got := f.DecodeString(data)
-			r.Check(got == want && strings.Contains(want, norm.NFC.String(tc)), "precedence-bom", fmt.Sprintf("a string beginning with bytes % X, font with a ToUnicode map: decoded to %q, the map gives %q", data[:2], got, want), L(I(2), Bs(prog), VB(data)))
+			// the third text must be there; compared decomposed, because composition may merge its first or last
+			// character with a neighbour's combining mark
+			has := strings.Contains(norm.NFD.String(want), norm.NFD.String(tc))
+			r.Check(got == want && has, "precedence-bom", fmt.Sprintf("a string beginning with bytes % X, font with a ToUnicode map: decoded to %q, the map gives %q", data[:2], got, want), L(I(2), Bs(prog), VB(data)))
 		}
 		// (d) every path returns valid UTF-8 in normal form C
 		for it := 0; it < n*2; it++ {
